@@ -280,6 +280,7 @@ func writeEvidence(verif string, p harness.Property, e *harness.Env, st *harness
 		"probes":                        st.Probes,
 		"instrumenter":                  map[string]any{"counts": e.Report.Counts, "map_sites": e.Report.Sites, "warnings": e.Report.Warnings},
 		"fidelity_gate":                 fid,
+		"terminal_variants_without_pty": e.NoPTY,
 		"components": map[string]any{
 			"real":          []string{"all crd packages (instrumented: same statements plus seam calls)", "ybase lexer base", "yaml.v3", "cobra/pflag", "gomidi smf writer/reader", "Go runtime", "real fd 1/2 and real exit status"},
 			"stub":          []string{"stdin and file opens/creates (simulated streams, virtual file map)", "goroutine hand-over, channels, mutexes (simulated primitives with Go semantics, baton scheduler)", "map iteration order (seeded permutation of the real map's keys)", "RLIMIT_AS as the allocator limit",
